@@ -1192,6 +1192,15 @@ impl<'a> GeneratorState<'a> {
                 pos,
             ));
         }
+        if matches!(cycles, 3 | 5 | 9 | 10)
+            && self.compiler_state.get_variable("DUMMY").memory != VariableMemory::Zeropage
+        {
+            // An access out of page zero takes one more cycle
+            return Err(self.compiler_state.syntax_error(
+                "This cycle sleep value needs the variable named DUMMY in zeropage",
+                pos,
+            ));
+        }
         // Like the NOPs, the accesses to DUMMY are there for their duration only
         self.protected = true;
         let res = self.generate_csleep_instructions(cycles, pos);
